@@ -30,6 +30,7 @@ ACCESS = ("operator[]", "data", "get", "begin", "end", "operator*", "at", "opera
 COPY_LIKE = ("assign", "operator=", "push_back", "insert", "emplace_back")
 SINKS = ("ComputeCorrection", "ComputeOriginalValue")
 MAX_DEPTH = 2
+LEDGER_DEPTH = 4
 
 
 def strip(t):
@@ -145,12 +146,15 @@ def value_nodes(t, arg_filter=None):
 
 
 class PredSig:
-    def __init__(self, F):
+    def __init__(self, F, inline_dir=None):
         self.F = F
         self._memo = {}
+        self.inline_dir = inline_dir       # also inline every callee defined under this directory (ledger mode)
 
     def private_helper(self, fn, callee):
         """inline: members of the same class (any instantiation), file-local functions and lambdas"""
+        if self.inline_dir and self.inline_dir in callee.file:
+            return True
         if callee.is_lambda or "(anonymous namespace)" in callee.name:
             return True
         if fn.cls and callee.cls and strip_targs(fn.cls) == strip_targs(callee.cls):
@@ -165,10 +169,13 @@ class PredSig:
                     short_of(n) in ("AddAsUnsigned", "ConvertSymbolToSignedInt", "ConvertSignedIntToSymbol"):
                 return None                  # std:: functions, operators, value helpers: every argument is a value
             tg = [t for t in self.F.targets(n) if not n.get("virt")]
-            if len(tg) == 1 and self.private_helper(fn, tg[0]) and depth < MAX_DEPTH:
+            if len(tg) == 1 and self.private_helper(fn, tg[0]) and depth < self.max_depth():
                 return self.return_sig(tg[0], depth + 1)[2]
             return {i for i, a in enumerate(args) if is_ptr(a)}   # shared helper: data pointers, not ids / counts
         return flt
+
+    def max_depth(self):
+        return LEDGER_DEPTH if self.inline_dir else MAX_DEPTH
 
     def _op(self, n):
         l, r = n.get("l"), n.get("r")
@@ -187,18 +194,28 @@ class PredSig:
                 arith.add(self._op(n))
             elif k == "un" and n.get("op") == "-":
                 arith.add(("neg", max(32, width(n.get("e")))))
+            elif k in ("cast", "icast") and n.get("iw") and "v" not in n and n["iw"] >= 8:
+                e_ = n.get("e")
+                while isinstance(e_, dict) and e_.get("k") in ("copy", "paren"):
+                    e_ = e_.get("e")
+                we = width(e_) if isinstance(e_, dict) and (e_.get("iw") or e_.get("k") in ("bin", "un")) else None
+                if we and we > n["iw"] and n["iw"] >= 32:
+                    arith.add(("narrow", we, n["iw"]))     # a wrapping conversion is part of the value
             elif k == "call":
                 s = short_of(n)
                 if s in ACCESS or s in ("size", "empty"):
                     continue
                 fnm = n.get("fn") or ""
+                if strip_targs(fnm) in ("std::min", "std::max", "std::abs", "std::clamp", "abs", "std::llabs", "llabs"):
+                    arith.add((strip_targs(fnm).replace("std::", ""), max(32, width(n))))
+                    continue
                 if not fnm.startswith(("draco::", "verif_control::")):
                     continue
                 if s == "AddAsUnsigned":
                     arith.add(("add", max(32, width(n))))
                     continue
                 tg = [t for t in self.F.targets(n) if not n.get("virt")]
-                if len(tg) == 1 and self.private_helper(fn, tg[0]) and depth < MAX_DEPTH:
+                if len(tg) == 1 and self.private_helper(fn, tg[0]) and depth < self.max_depth():
                     a2, c2, _ = self.return_sig(tg[0], depth + 1)
                     arith |= a2
                     calls |= c2
@@ -311,7 +328,7 @@ class PredSig:
                         if s in SINKS:
                             continue
                         tg = [t for t in self.F.targets(n) if not n.get("virt")]
-                        if hit and len(tg) == 1 and self.private_helper(fn, tg[0]) and depth < MAX_DEPTH:
+                        if hit and len(tg) == 1 and self.private_helper(fn, tg[0]) and depth < self.max_depth():
                             for i in hit:
                                 a2, c2, _ = self.param_sig(tg[0], i, depth + 1)
                                 arith |= a2
@@ -518,4 +535,43 @@ def run_sibling_fp(ctx, rep, dirs=None, rule="SIBLING-FP"):
                            "the encoder computes in %s, the decoder in %s: state that both sides must derive "
                            "identically is rounded differently" % (sorted(by[cls]), sorted(by[d]))))
     rep.control(rule, "fp_ pair", fired, "float on one side and double on the other must be reported")
+    return n
+
+
+def decoder_signatures(F):
+    """{scheme decoder function: sorted list of signature items} with every helper of the prediction-scheme
+    directory inlined (the shared predictors are part of what a stream means)"""
+    ps = PredSig(F, inline_dir="/prediction_schemes/")
+    out = {}
+    for f in F.fns.values():
+        if "PredictionScheme" not in f.base or f.base.rsplit("::", 1)[-1] != "ComputeOriginalValues":
+            continue
+        if f.name.startswith("verif_control::"):
+            continue
+        a, c, k = sink_slices(ps, f)
+        if not k:
+            continue
+        key = f.base.replace("draco::", "")
+        cur = out.setdefault(key, set())
+        cur |= {"%s/%s" % (x[0], "/".join(str(y) for y in x[1:])) for x in a}
+        cur |= {"call " + x.split("::")[-1] for x in c}
+    return {k: sorted(v) for k, v in out.items()}
+
+
+def run_predsig_ledger(ctx, rep, rule="LEDGER-PREDSIG"):
+    from .core import Obligation, DISCHARGED, VIOLATION, load_table
+    from .substrate import AnalysisBroken
+    now = decoder_signatures(ctx.F)
+    frozen = load_table("predsig_ledger.json")["decoders"]
+    n = 0
+    for k, fz in sorted(frozen.items()):
+        if k not in now:
+            raise AnalysisBroken("LEDGER-PREDSIG: decoder %s not found" % k)
+        same = sorted(fz) == now[k]
+        n += 1
+        rep.add(Obligation(rule, k, "arithmetic of the predicted value", "-", DISCHARGED if same else VIOLATION,
+                           detail="equals the frozen signature (%d items)" % len(fz) if same else
+                           "the operations that produce the decoder's predicted value changed (both coder sides share "
+                           "them, so round trips still work, but streams written before decode to other values): now also "
+                           "%s, no longer %s" % (sorted(set(now[k]) - set(fz)), sorted(set(fz) - set(now[k])))))
     return n
